@@ -76,7 +76,7 @@ CLAIMED = {
    ref="DESIGN.md section 3 E4/E6, section 4 C13"),
  "C15": dict(
    technique="sibling-same-callee and callee-of-each-appended-rune rules, write-order rules, transposition-only rule, concatenation-shape and guard-dominance rules, piecewise-affine selection table with a statically checked premise (BD2, Substr), helper hygiene on go/ssa over string.go",
-   text="Decides: ToLower/ToUpper/Capitalize range rune-wise and append for every rune exactly unicode.ToLower/ToUpper of that rune (upper at offset 0 for Capitalize) and convert back; SnakeCase/KebabCase are one helper call differing only in the delimiter; Wrap writes token, payload, token and WrapAllRune does so per rune; ReverseStr converts to []rune, only swaps in a two-pointer loop and converts back; Pad functions return the input unchanged under size <= len and otherwise concatenate in the documented order with the pad cut to exactly the missing length; SplitAtIndex returns on every path two complementary parts; Unwrap strips exactly len(token) from both ends only under HasPrefix, HasSuffix and len >= 2*len(token); Substr (rule BD2): premise decided on the SSA - Substr and the module functions it calls are loop-free, combine integers only by + - and comparisons, and compare/slice with affine forms of (len, offset, length) of small coefficients - and under it the outcome (byte range returned, empty string, or out-of-range slice bounds = panic) is tabulated by the checker's own evaluator over len 0..6 x offset, length -9..9 (thorough: doubled ranges, same verdicts required) against the statement's selection rule; premise failure is undecided; no mutable globals, no goroutines. Pad availability and the regexp-based case converters are not decided.",
+   text="Decides: ToLower/ToUpper/Capitalize range rune-wise and append for every rune exactly unicode.ToLower/ToUpper of that rune (upper at offset 0 for Capitalize) and convert back; SnakeCase/KebabCase are one helper call differing only in the delimiter; Wrap writes token, payload, token and WrapAllRune does so per rune; ReverseStr converts to []rune, only swaps in a two-pointer loop and converts back; Pad functions return the input unchanged under size <= len (or an empty token), cut the repeated token only on paths that excluded the empty token (a cut of strings.Repeat(\"\", k) panics) and otherwise concatenate in the documented order with the pad cut to exactly the missing length; SplitAtIndex returns on every path two complementary parts; Unwrap strips exactly len(token) from both ends only under HasPrefix, HasSuffix and len >= 2*len(token); Substr (rule BD2): premise decided on the SSA - Substr and the module functions it calls are loop-free, combine integers only by + - and comparisons, and compare/slice with affine forms of (len, offset, length) of small coefficients - and under it the outcome (byte range returned, empty string, or out-of-range slice bounds = panic) is tabulated by the checker's own evaluator over len 0..6 x offset, length -9..9 (thorough: doubled ranges, same verdicts required) against the statement's selection rule; premise failure is undecided; no mutable globals, no goroutines. The regexp-based case converters are not decided.",
    note="Trusted: go/ssa; contracts of unicode/strings functions used.",
    ref="DESIGN.md section 3 E7 (AG5), section 4 C15"),
  "C11": dict(
